@@ -164,11 +164,11 @@ theorem lookupMeth_upsert (ms : List (Bytes × Meth)) (k k2 : Bytes) (m : Meth) 
 def verbKey (verb : Bytes) : Option Bytes := if verb == starVerb then none else some verb
 
 /-- `register` only ever adds the new method under the rule's own kind. -/
-theorem register_stored (n n' : Node) (verb : Bytes) (mid : Nat) (mk : Unit → Outcome Meth)
-    (h : register n verb mid mk = .ok n') (vk : Option Bytes) (m : Meth) (hs : StoredHere n' vk m) :
+theorem registerCore_stored (n n' : Node) (verb : Bytes) (mid : Nat) (mk : Unit → Outcome Meth)
+    (h : registerCore n verb mid mk = .ok n') (vk : Option Bytes) (m : Meth) (hs : StoredHere n' vk m) :
     StoredHere n vk m ∨ (vk = verbKey verb ∧ mk () = .ok m) := by
   obtain ⟨segs, methods, all, vars⟩ := n
-  simp only [register] at h
+  simp only [registerCore] at h
   split at h
   · split at h
     · cases h
@@ -200,10 +200,10 @@ theorem register_stored (n n' : Node) (verb : Bytes) (mid : Nat) (mk : Unit → 
     | err e => rw [hm] at h; simp at h
     | panic s => rw [hm] at h; simp at h
 
-theorem register_same_structure (n n' : Node) (verb : Bytes) (mid : Nat) (mk : Unit → Outcome Meth)
-    (h : register n verb mid mk = .ok n') : n'.segs = n.segs ∧ n'.vars = n.vars := by
+theorem registerCore_same_structure (n n' : Node) (verb : Bytes) (mid : Nat) (mk : Unit → Outcome Meth)
+    (h : registerCore n verb mid mk = .ok n') : n'.segs = n.segs ∧ n'.vars = n.vars := by
   obtain ⟨segs, methods, all, vars⟩ := n
-  simp only [register] at h
+  simp only [registerCore] at h
   split at h
   · split at h
     · cases h
@@ -215,6 +215,20 @@ theorem register_same_structure (n n' : Node) (verb : Bytes) (mid : Nat) (mk : U
       split at h <;> (injection h with h; subst h; exact ⟨rfl, rfl⟩)
     | err e => rw [hm] at h; simp at h
     | panic s => rw [hm] at h; simp at h
+
+/-- `register` only ever adds the new method under the rule's own kind. -/
+theorem register_stored (n n' : Node) (verb : Bytes) (mid : Nat) (mk : Unit → Outcome Meth)
+    (h : register n verb mid mk = .ok n') (vk : Option Bytes) (m : Meth) (hs : StoredHere n' vk m) :
+    StoredHere n vk m ∨ (vk = verbKey verb ∧ mk () = .ok m) := by
+  obtain ⟨m0, hm, hc⟩ := register_ok n n' verb mid mk h
+  rcases registerCore_stored n n' verb mid _ hc vk m hs with h1 | ⟨h1, h2⟩
+  · exact Or.inl h1
+  · injection h2 with h2; subst h2; exact Or.inr ⟨h1, hm⟩
+
+theorem register_same_structure (n n' : Node) (verb : Bytes) (mid : Nat) (mk : Unit → Outcome Meth)
+    (h : register n verb mid mk = .ok n') : n'.segs = n.segs ∧ n'.vars = n.vars := by
+  obtain ⟨m0, _, hc⟩ := register_ok n n' verb mid mk h
+  exact registerCore_same_structure n n' verb mid _ hc
 
 /-- **provenance of one insertion**: whatever is bound in the trie afterwards was bound
 before, or is the new method at exactly the way of the inserted binding. -/
